@@ -12,6 +12,8 @@ mod lua;
 mod name_resolution;
 mod ty;
 mod typechecker;
+#[cfg(sylt_verif)]
+pub mod verif_trace;
 
 type NamespaceID = usize;
 
